@@ -179,6 +179,7 @@ def check(pid, tier="quick", seed=None, only_cases=None):
     kinds = {}
     outcome_hist = {}
     bad_cases = []
+    tie_broken = bool(broken)
     for i, c in enumerate(cases):
         r, m = impl[i], model[i]
         if r is None:
@@ -216,7 +217,9 @@ def check(pid, tier="quick", seed=None, only_cases=None):
         fid = None
         if reason is not None:
             stats["spec_fail"] += 1
-            if corr and has_model or (corr and not c.model):
+            # when the tie itself is already broken (lost anchors, failed obligations) the model's prediction means nothing:
+            # listed findings are then attributed by their class alone, and the broken tie is reported on its own
+            if corr and has_model or (corr and not c.model) or tie_broken:
                 # the faithful model predicts exactly this wrong answer (or there is no model for this
                 # case kind): attributable to a listed finding only
                 for t in c.tags:
@@ -233,6 +236,9 @@ def check(pid, tier="quick", seed=None, only_cases=None):
         if fid is not None:
             stats["known"] += 1
             known_hit.setdefault(fid, []).append(i)
+            if not corr:
+                stats["corr_broken"] += 1
+                bad_cases.append((i, None, corr))
             continue
         if not corr:
             stats["corr_broken"] += 1
